@@ -590,14 +590,14 @@ theorem finishFiber_Evo (cur : Option Nat) (w : World) (f : Nat) (err : Bool) : 
   · subst e; cases err <;> simp [finishFiber, setFiber] at h
   · left; simpa [finishFiber, setFiber, e] using h
 
-theorem loopRunTask_Evo (w : World) : Evo none w (loopRunTask w).1 := by
-  rcases loopRunTask_cases w with ⟨_, he⟩ | ⟨t, rest, hq, hr, ht, hc, hoth, hs, _, hcase⟩
+theorem loopRunTask_Evo (cfg : Cfg) (w : World) : Evo none w (loopRunTask cfg w).1 := by
+  rcases loopRunTask_cases cfg w with ⟨_, he⟩ | ⟨t, rest, hq, hr, ht, hc, hoth, hs, _, hcase⟩
   · rw [he]; exact Evo.refl _ _
-  · have hsall : ∀ h, ((loopRunTask w).1.fibers h).sched = (w.fibers h).sched := by
+  · have hsall : ∀ h, (w.fibers h).sched ≤ ((loopRunTask cfg w).1.fibers h).sched := by
       intro h; by_cases e : h = t.fiber
-      · rw [e]; exact hs
-      · rw [hoth h e]
-    refine ⟨EvoQ.of_chans hc (fun g => by rw [hsall]; exact Nat.le_refl _), fun g => by rw [hsall]; exact Nat.le_refl _,
+      · rw [e, hs]; split <;> omega
+      · rw [hoth h e]; exact Nat.le_refl _
+    refine ⟨EvoQ.of_chans hc hsall, hsall,
       fun u h => by rw [ht] at h; exact Or.inl h, fun u h => by rw [hr] at h; rw [hq]; exact Or.inl (List.mem_cons_of_mem _ h), ?_⟩
     intro g h
     left
@@ -641,7 +641,7 @@ theorem step_Evo {cfg : Cfg} (hg : CfgGood cfg) (w : World) (a : Action) (hns : 
   cases hcur : w.current with
   | none =>
     cases a with
-    | runTask => exact loopRunTask_Evo w
+    | runTask => exact loopRunTask_Evo cfg w
     | timers => exact loopTimers_Evo w
     | poll => exact loopPollDrop_Evo w
     | scopeEnd s => exact Evo.of_ghost rfl rfl rfl rfl
